@@ -167,10 +167,11 @@ def run_obligation(ctx, obl, want_trace=False, trace_props=()):
         cb += ["--trace"]
         for tp in trace_props:
             cb += ["--property", tp]
-    rc, txt, secs = sh(cb, obl.timeout, obl.mem_gb, out=log)
+    tmo = int(obl.timeout * float(os.environ.get("VERIF_TIMEOUT_SCALE", "1.5")))   # head-room for a loaded machine
+    rc, txt, secs = sh(cb, tmo, obl.mem_gb, out=log)
     r.wall = time.time() - t0
     if rc == -999:
-        r.status, r.detail = "timeout", "cbmc exceeded %ds" % obl.timeout
+        r.status, r.detail = "timeout", "cbmc exceeded %ds" % tmo
         return r
     i = txt.find("[")
     try:
